@@ -111,6 +111,9 @@ def enc_array(vals, kind):
     if kind == "bool":
         data = [bool(v) for v in flat]
         dt = "bool"
+    elif kind == "uint8":
+        data = [int(v) % 256 for v in flat]
+        dt = "uint8"
     elif all(isinstance(v, (bool, int)) for v in flat):
         data = [int(v) for v in flat]
         dt = "int64"
